@@ -61,6 +61,7 @@ type fnSummary struct {
 	rets     []rootSet
 	captures map[root]rootSet            // stores into memory of a non-local root: target -> value roots
 	writes   map[root]map[string]writeDesc // non-local target root -> descriptors
+	reads    map[root]map[string]bool      // non-local root -> field descriptors loaded
 }
 
 type aliasEngine struct {
@@ -226,7 +227,7 @@ func newAliasEngine(c *Ctx) *aliasEngine {
 func (e *aliasEngine) summary(f *ssa.Function) *fnSummary {
 	s := e.sum[f]
 	if s == nil {
-		s = &fnSummary{captures: map[root]rootSet{}, writes: map[root]map[string]writeDesc{}}
+		s = &fnSummary{captures: map[root]rootSet{}, writes: map[root]map[string]writeDesc{}, reads: map[root]map[string]bool{}}
 		n := f.Signature.Results().Len()
 		for i := 0; i < n; i++ {
 			s.rets = append(s.rets, rootSet{})
@@ -656,6 +657,23 @@ func (e *aliasEngine) analyse(fn *ssa.Function) {
 			case *ssa.UnOp:
 				switch t.Op {
 				case token.MUL:
+					if fa, ok := t.X.(*ssa.FieldAddr); ok {
+						d := describeAddr(fa)
+						for rt := range e.rootsOf(fa) {
+							if rt.Kind == rkAlloc {
+								continue
+							}
+							m := sum.reads[rt]
+							if m == nil {
+								m = map[string]bool{}
+								sum.reads[rt] = m
+							}
+							if !m[d] {
+								m[d] = true
+								e.changed = true
+							}
+						}
+					}
 					if hasRefs(t.Type()) {
 						if sts, ok := reaching[t]; ok {
 							for _, st := range sts {
@@ -782,6 +800,25 @@ func (e *aliasEngine) applySummary(fn, callee *ssa.Function, args []rootSet, res
 	}
 	for t, vs := range cs.captures {
 		e.storeInto(fn, e.subst(callee, rootSet{t: true}, args), e.subst(callee, vs, args), "", pos, false)
+	}
+	for t, rs := range cs.reads {
+		for tr := range e.subst(callee, rootSet{t: true}, args) {
+			if tr.Kind == rkAlloc {
+				continue
+			}
+			sum := e.summary(fn)
+			m := sum.reads[tr]
+			if m == nil {
+				m = map[string]bool{}
+				sum.reads[tr] = m
+			}
+			for d := range rs {
+				if !m[d] {
+					m[d] = true
+					e.changed = true
+				}
+			}
+		}
 	}
 	for t, ws := range cs.writes {
 		targets := e.subst(callee, rootSet{t: true}, args)
